@@ -474,7 +474,9 @@ func (g *G) intArr(depth, min int, role string) *N {
 	n := min + g.t.Intn(3)
 	for i := 0; i < n; i++ {
 		if depth > 0 && g.t.Chance(1, 6) {
-			if g.t.Chance(1, 2) {
+			if g.t.Chance(1, 10) {
+				a.L = append(a.L, g.slot("id", "arr/star")) // `*` of something that is no array: TypeErr there
+			} else if g.t.Chance(1, 2) {
 				a.L = append(a.L, g.slot("arr", "arr/star"))
 			} else {
 				a.L = append(a.L, g.intArr(depth-1, 0, "arr/elem"))
@@ -524,7 +526,10 @@ func (g *G) objLit(depth int) *N {
 	}
 	ns := g.t.Pick(3, 2, 1)
 	for i := 0; i < ns; i++ {
-		if g.t.Chance(1, 2) || depth <= 0 {
+		if g.t.Chance(1, 9) {
+			// `**` of something that is no object: the literal fails there, with TypeErr
+			o.L = append(o.L, g.slot("id", "obj/starstar"))
+		} else if g.t.Chance(1, 2) || depth <= 0 {
 			o.L = append(o.L, g.slot("obj", "obj/starstar"))
 		} else {
 			inner := &N{K: KObj, L: []*N{g.intExpr(depth-1, "obj/value")}, Names: []string{keys[g.t.Intn(3)]}, Star: []int{0}}
